@@ -116,7 +116,10 @@ def install_sorted_model(vc):
         return it.branch(lib.compare(it, _ast.Lt(), a, b))
 
     def locate(self_, x):
-        """index of x (identity) among entries whose stored key equals key(x), or None"""
+        """index of x (identity) among entries whose stored key equals key(x), or None.
+        As in the library, the key function is not evaluated when the list is empty."""
+        if not self_.fields["_items"].items:
+            return None
         k = keyof(self_, x)
         for i, y in enumerate(self_.fields["_items"].items):
             if y is x:
